@@ -27,6 +27,10 @@ theorem fact_reload_atomic :
     shape `sCreate` models ("create of an existing name fails, no effect"), on which `reserved_never_allocated` rests. -/
 theorem fact_create_conflict_is_final : Generated.Ipam.createReturnsCreateError = true := by decide
 
+/-- tie to the code: what `ConfigurePool` takes for "the stored objects" (`listFloatingIPs`) is a LIST against the API
+    server, not an informer cache (which lags galaxy-ipam's own writes) — `configurePool` reads `s.store`. -/
+theorem fact_reload_lists_store : Generated.Ipam.reloadListsApiserver = true := by decide
+
 /-- "An IP that an administrator reserved with a labelled FloatingIP object … is never handed to a pod": in ANY state,
     an address with a stored object — labelled or not, its watch event delivered or not — is returned by no
     allocation move, whatever the choice and the plan.  (Before delivery the store create conflicts; after delivery
